@@ -654,3 +654,69 @@ func c03FilterAndSaveUnderOneHold(c *core.Ctx) {
 	}
 	c.Floor("confirm-filter-and-save/sites", n, 2)
 }
+
+// c18ExistFromIndexOnly: whether a transaction is known to the pool is decided by the index alone — isTxExist and the same-package
+// helpers it calls read TxPool.hashIndexMap, not the slot list. (An index entry whose slot was emptied is what keeps a box dead after one
+// of its sub transactions was packaged; a lookup that also asks for a live slot lets the box back in.)
+func c18ExistFromIndexOnly(c *core.Ctx) {
+	const tp = "chain/txpool"
+	fn := c.Fn(tp + ".TxPool.isTxExist")
+	txs := c.FieldVar(tp+".TxPool", "txs")
+	idx := c.FieldVar(tp+".TxPool", "hashIndexMap")
+	seen := map[*ssa.Function]bool{}
+	readsTxs, readsIdx := "", false
+	var walk func(f *ssa.Function, d int)
+	walk = func(f *ssa.Function, d int) {
+		if f == nil || f.Blocks == nil || seen[f] || d > 3 {
+			return
+		}
+		seen[f] = true
+		for _, b := range f.Blocks {
+			for _, in := range b.Instrs {
+				if fa, ok := in.(*ssa.FieldAddr); ok {
+					switch core.FieldOf(fa) {
+					case txs:
+						readsTxs = shortFn(f)
+					case idx:
+						readsIdx = true
+					}
+				}
+				if ci, ok := in.(ssa.CallInstruction); ok {
+					if sc := core.StaticFn(ci); sc != nil && sc.Pkg == f.Pkg {
+						if o, isF := sc.Object().(*types.Func); isF && !o.Exported() {
+							walk(sc, d+1)
+						}
+					}
+				}
+			}
+		}
+	}
+	walk(fn, 0)
+	c.Check("isTxExist:answers-from-the-index-only", "who-may-read", readsIdx && readsTxs == "", fn.Pos(), "the existence test reads hashIndexMap and not the slot list (%s reads TxPool.txs)", orOK(readsTxs))
+}
+
+// c18GuardExpiryAfterPoolFixup: the replay guard forgets old blocks only after the pool was adjusted to the new head: in saveNewBlock and
+// InsertConfirms no call that leads to TxGuard.DelOldBlocks can run before the fork update (onCurrentChanged walks both branches through
+// the guard; a block dropped first makes the walk fail and the pool keeps the wrong transactions).
+func c18GuardExpiryAfterPoolFixup(c *core.Ctx) {
+	const cons = "chain/consensus"
+	del := c.Method("chain/txpool.TxGuard", "DelOldBlocks")
+	upd := []*types.Func{c.Method(cons+".ForkManager", "UpdateFork"), c.Method(cons+".ForkManager", "UpdateForkForConfirm")}
+	n := 0
+	for _, spec := range []string{cons + ".DPoVP.saveNewBlock", cons + ".DPoVP.InsertConfirms"} {
+		fn := c.FnOrCaller(spec)
+		us := core.CallsIn(fn, upd...)
+		for _, d := range callsLeadingTo(fn, del) {
+			n++
+			ok := len(us) > 0
+			for _, u := range us {
+				// the expiry cannot still be followed by the fork update
+				if core.ReachableAfter(d, u) {
+					ok = false
+				}
+			}
+			c.Check("DelOldBlocks-after-fork-update@"+shortFn(fn), "order", ok, d.Pos(), "in %s the guard's expiry (%s) runs only after the fork update and the pool fix-up that follows it", shortFn(fn), objName(core.CalleeObj(d)))
+		}
+	}
+	c.Floor("guard-expiry/sites", n, 2)
+}
